@@ -1,6 +1,7 @@
 import PsVerif.Driver.Util
 import PsVerif.Model.Observe
 import PsVerif.Model.AbsC06
+import PsVerif.Model.AbsMk
 /- line-protocol front end for the abstract-engine trace inclusion -/
 namespace PsVerif.Driver
 open PsVerif PsVerif.Gen PsVerif.Model.Abs
@@ -9,6 +10,7 @@ open PsVerif PsVerif.Gen PsVerif.Model.Abs
 inductive AbsState where
   | none
   | c06 (sys : Sys Model.AbsC06.F) (S : List (MC Model.AbsC06.F))
+  | mk (sys : Sys Model.AbsMk.F) (S : List (MC Model.AbsMk.F))
 
 def role? (s : String) : Option Role := Role.ofName s
 
@@ -20,6 +22,16 @@ def c06F? (s : String) : Option Model.AbsC06.F :=
   | some [a, b, c, d, e] => some ⟨a, b, c, d, e, false⟩
   | _ => Option.none
 
+def mkF? (s : String) : Option Model.AbsMk.F :=
+  match s.toList with
+  | o :: rest =>
+    match bits? (String.ofList rest) with
+    | some [a, b, c, d, e, g, h] =>
+      let n := if o == '0' then 0 else if o == '1' then 1 else 2
+      some ((((((((Model.AbsMk.F.init.setOpenings n).setOpeningRec a).setInvoicePaid b).setSpentBack c).setClaimTxRec d).setCsvWatch e).setResend g).setSuspicious h)
+    | _ => Option.none
+  | [] => Option.none
+
 def tableOf : Role → List Row := Gen.table
 
 def handleAbs (st : AbsState) : List String → Option (AbsState × String)
@@ -27,8 +39,16 @@ def handleAbs (st : AbsState) : List String → Option (AbsState × String)
     let r ← role? role
     let sys := Model.AbsC06.sys r (tableOf r) ⟨← bool? ewp, ← bool? cip⟩
     pure (.c06 sys [initMC sys], "ok")
+  | ["abs.reset", "Mk", role, cib, sf, pf] => do
+    let r ← role? role
+    let sys := Model.AbsMk.sys (tableOf r) ⟨← bool? cib, ← bool? sf, ← bool? pf⟩
+    pure (.mk sys [initMC sys], "ok")
   | ["abs.persist", s, fl] =>
     match st with
+    | .mk sys S => do
+      let s' ← St.ofName (if s == "-" then "" else s)
+      let S' := obsPersist sys S s' (← mkF? fl)
+      pure (.mk sys S', if S'.isEmpty then "REJECT" else "ok")
     | .c06 sys S => do
       let s' ← St.ofName (if s == "-" then "" else s)
       let S' := obsPersist sys S s' (← c06F? fl)
@@ -36,6 +56,9 @@ def handleAbs (st : AbsState) : List String → Option (AbsState × String)
     | .none => some (st, "no-abstraction")
   | ["abs.crash"] =>
     match st with
+    | .mk sys S =>
+      let S' := obsCrash sys S
+      some (.mk sys S', if S'.isEmpty then "REJECT" else "ok")
     | .c06 sys S =>
       let S' := obsCrash sys S
       some (.c06 sys S', if S'.isEmpty then "REJECT" else "ok")
